@@ -11,7 +11,7 @@ checks = []
 for pid in all_ids:
     if pid not in registry.PROPS:
         continue
-    t = T.TEXT[pid]
+    t = registry.TEXT[pid]
     checks.append(dict(
         property_id=pid,
         quick_cmd=f"./check {pid} --tier quick",
